@@ -4,7 +4,7 @@ From Coq Require Import List NArith String.
 Import ListNotations.
 Local Open Scope string_scope.
 From TV Require Import Lib.Obs Lib.C21_Utf8 C19.Model C19.Codegen C19.Sem C19.Spec C19.Pool C19.Run
-  C19.ProofsA C19.ProofsB1 C19.ProofsB2 C19.ProofsB3 C19.ProofsP C19.ProofsC C19.ProofsT C19.ProofsL.
+  C19.ProofsA C19.ProofsB1 C19.ProofsB2 C19.ProofsB3 C19.ProofsP C19.ProofsC C19.ProofsT C19.ProofsL C19.ProofsW.
 
 (* (REF-1) Executing the Python statements the compiler should emit for a resolved
    template gives exactly the output / escaping exception of the direct
@@ -82,31 +82,43 @@ Proof. split; reflexivity. Qed.
 
 (* (RT) "{{!", "{%!", "{#!" yield the literal two-character token; the "!" is consumed *)
 Theorem C19_escaped_braces_are_literal :
-  forall f txt line ws ae ib il acc b rest,
+  forall f txt line ws ae pos ib il acc b rest,
     txt = (123 :: b :: 33 :: rest)%N -> is_special b = true ->
-    parse_body (S f) (mkR txt line ws ae) ib il acc
-    = parse_body f (mkR rest line ws ae) ib il (NText [123; b]%N line ws :: acc).
+    parse_body (S f) (mkR txt line ws ae pos) ib il acc
+    = parse_body f (mkR rest line ws ae (pos + 3)) ib il (NText [123; b]%N line ws :: acc).
 Proof. exact escape_yields_literal_braces. Qed.
 Print Assumptions C19_escaped_braces_are_literal.
 
-(* (ERR, partial) every ParseError raised while parsing names the line of a reader
-   position: 1 + the number of newlines before some offset of the source — in
-   particular a line of the file.  Full statement (NOT proved): for each error
-   class the offset is the end of the offending tag (or, for "Missing end ...",
-   the position just after the opening token / the position where the last scan
-   for a tag started).  The exact value is compared with ParseError.lineno by the
-   correspondence on every malformed case. *)
-Theorem C19_parse_error_line_is_a_reader_position_partial :
-  forall ws ae name src k line,
-    parse_file ws ae name src = PErr (PE k line) ->
-    (exists n, line = (1 + count_nl (firstn n src))%nat)
-    /\ (1 <= line <= 1 + count_nl src)%nat.
-Proof.
-  intros ws ae name src k line H. split.
-  - exact (parse_file_error_line ws ae name src k line H).
-  - exact (parse_file_error_line_in_range ws ae name src k line H).
-Qed.
-Print Assumptions C19_parse_error_line_is_a_reader_position_partial.
+(* (ERR) Every ParseError raised while parsing carries
+     lineno = 1 + the number of newlines before reader.pos,
+   where reader.pos (carried by the model's error, not observable in Tornado) is:
+   - for an unterminated comment / expression / block tag: just after its opening
+     two-character token, and the closing token does not occur in the rest;
+   - "Missing {% end %}": a position after which the scanner finds no further tag;
+   - "Empty expression": just after the closing "}}" of the offending tag;
+   - every other class (empty block, unknown operator, misplaced else/elif/except/
+     finally/end/break/continue, missing argument of extends/include/set/import):
+     just after the closing "%}" of the offending tag; for apply/block without an
+     argument, just after the "%}" of the block's {% end %}. *)
+Theorem C19_parse_error_names_the_line_of_the_offending_tag :
+  forall ws ae name src k line pos,
+    parse_file ws ae name src = PErr (PE k line pos) ->
+    line = (1 + count_nl (firstn pos src))%nat /\ (pos <= List.length src)%nat /\ where_ok src k pos.
+Proof. exact parse_file_error_exact. Qed.
+Print Assumptions C19_parse_error_names_the_line_of_the_offending_tag.
+
+(* (WS) Whitespace directives are scoped linearly.  [Flat] (ProofsW.v) walks the tags of a
+   file left to right WITHOUT any nesting; a {% whitespace M %} tag sets the mode of all
+   following text wherever it stands.  The literal text chunks of the parsed tree, in
+   document order (descending into if/for/while/try/apply/block bodies), with the mode
+   recorded in each chunk, are exactly the flat tokenizer's: a mode chosen inside a nested
+   body stays in force after that body's {% end %}, for every source text. *)
+Theorem C19_whitespace_directive_scoping_is_linear :
+  forall ws m ae name src t,
+    ws_of_text ws = Some m -> parse_file ws ae name src = POk t ->
+    Flat (mkR src 1 m ae 0) (texts_list (t_body t)).
+Proof. exact parse_file_texts_are_flat. Qed.
+Print Assumptions C19_whitespace_directive_scoping_is_linear.
 
 (* the model satisfies the checker that is applied to the implementation's observables *)
 Theorem C19_model_satisfies_checker : forall c, check_case c (run_case c) = true.
